@@ -476,7 +476,7 @@ def run_C14(ctx):
               gen(ctx, b, "hostile_file3", ["hostile-gen", "-what", "file", "-triples"])]
     ctx.exhaustive = True
     decide(ctx, b, "TraceHostile", ["Inv_NoPanic", "Inv_C14_Typed_T", "Inv_C14_Substrate", "Inv_C14_Addressable"], t,
-           extras=["Inv_X_ADLBytes", "Inv_X_ADLBytesLength", "Inv_X_ADLMap"])
+           extras=["Inv_X_ADLBytes", "Inv_X_ADLBytesLength", "Inv_X_ADLMap", "Inv_X_ADLPair", "Inv_X_ADLPairLength", "Inv_X_Ctor"])
 
 
 HOSTILE_CFG = ("SPECIFICATION Spec\nCONSTANTS\n  MaxChildLinks = %d\n  MaxRootLinks = %d\n  Digits <- MCDigits\n"
@@ -501,7 +501,7 @@ def run_C13(ctx):
         t += [gen(ctx, b, "hostile_hamt3", ["hostile-gen", "-what", "hamt", "-triples"]),
               gen(ctx, b, "hostile_file3", ["hostile-gen", "-what", "file", "-triples"])]
     decide(ctx, b, "TraceHostile", ["Inv_NoPanic", "Inv_C13_Reify", "Inv_C13_Op"], t,
-           extras=["Inv_X_HamtReify", "Inv_X_HamtLookup", "Inv_X_HamtLength", "Inv_X_HamtIter", "Inv_X_FileReify", "Inv_X_FileBytes"])
+           extras=["Inv_X_HamtReify", "Inv_X_HamtLookup", "Inv_X_HamtLength", "Inv_X_HamtIter", "Inv_X_FileReify", "Inv_X_FileBytes", "Inv_X_Ctor"])
     # the three decoders on arbitrary bytes: every truncation / bit flips of every TLC-generated stream, random bytes
     ct = codec_cases(ctx, b, q, fuzzevery=1 if not q else 4)
     ct.append(gen(ctx, b, "codecx", ["codec-gen", "-count", 2000 if q else 100000, "-seed", ctx.seed]))
@@ -532,7 +532,8 @@ def run_C19(ctx):
     vlib.model_check(ctx, "Fixture", open(vlib.os.path.join(vlib.SPEC, "Fixture.cfg")).read().replace("AllowDup = FALSE", "AllowDup = TRUE"),
                      name="Fixture_dup_names", expect_violation="Inv_C19_Siblings")
     t = [gen(ctx, b, "fixtures", ["fixture-gen", "-count", 12 if q else 400, "-seed", ctx.seed])]
-    decide(ctx, b, "TraceFixture", ["Inv_NoPanic", "Inv_Harness_Walk", "Inv_C19_Same", "Inv_C19_Siblings", "Inv_C19_Paths"], t)
+    decide(ctx, b, "TraceFixture", ["Inv_NoPanic", "Inv_Harness_Walk", "Inv_C19_Same", "Inv_C19_Siblings", "Inv_C19_Paths", "Inv_C19_ReadBack"], t,
+           extras=["Inv_X_CompareDetects"])
 
 
 # ----------------------------------------------------------------------------
@@ -637,6 +638,36 @@ def run_C17(ctx):
     # every call returns what it returns when run alone
     decide(ctx, b, "TraceDir", ["Inv_Harness_WF", "Inv_NoPanic", "Inv_C02_Lookup", "Inv_C02_Iter", "Inv_C02_Length", "Inv_C02_Big", "Inv_C17_NoRace", "Inv_C17_MissingShard"], traces_dir)
     decide(ctx, b, "TraceFile", ["Inv_Harness_WF", "Inv_NoPanic", "Inv_C01_Read", "Inv_C01_Whole", "Inv_C01_Open", "Inv_C04_Seek"], traces_file)
+    # TLC-generated schedules replayed on the real node: HamtSched explores every behaviour of the readers at the
+    # granularity of the library's two schedule hooks over the shard table of a real stored directory; the harness
+    # makes the real readers execute each exported behaviour (a blocking hook releases one reader at a time) and
+    # TraceSched validates every recorded segment against the same operators.
+    sched_traces = []
+    SIM = 4000 if q else 60000          # behaviours per simulation run (divided over TLC's workers)
+    runs = [("small", 2, None), ("small", 3, SIM), ("nested", 2, SIM), ("wide", 2, SIM)]
+    if not q:
+        runs += [("nested", 3, SIM), ("wide", 3, SIM)]
+    for cfgname, ng, sim in runs:
+        tab = "sched_table_%s.ndjson" % cfgname
+        vlib.vh(b, ["sched-table", "-cfg", cfgname, "-out", vlib.os.path.join(ctx.specdir, tab)])
+        cfg = ("SPECIFICATION Spec\nCONSTANTS\n  TableFile = \"%s\"\n  NG = %d\nINVARIANTS Inv_C17_SchedAnswers Inv_C17_SchedMemo "
+               "Inv_X_WarmIsQuiet Export\n%sCHECK_DEADLOCK FALSE\n" % (tab, ng, "" if sim else "PROPERTIES Terminates\n"))
+        W = 4
+        r = vlib.model_check(ctx, "HamtSched", cfg, name="HamtSched_%s_g%d" % (cfgname, ng), want_cases=True, workers=W if sim else None,
+                             simulate=(max(1, sim // W), 96, ctx.seed) if sim else None)
+        if not r["cases"]:
+            raise Broken("TLC exported no schedules for %s" % cfgname)
+        casefile = ctx.path("sched_%s_g%d.jsonl" % (cfgname, ng))
+        with open(casefile, "w") as f:
+            for k, c in enumerate(r["cases"]):
+                d = json.loads(c)
+                d["fam"], d["cfg"], d["id"] = "sched", cfgname, "sched-%s-g%d-%d" % (cfgname, ng, k)
+                f.write(json.dumps(d) + "\n")
+        ctx.extra["tlc_schedules_exported"] = ctx.extra.get("tlc_schedules_exported", 0) + len(r["cases"])
+        ctx.extra.setdefault("tlc_schedule_runs", []).append({"table": cfgname, "readers": ng, "behaviours": len(r["cases"]),
+                                                               "mode": "exhaustive" if not sim else "simulation"})
+        sched_traces.append(gen(ctx, b, "sched_%s_g%d" % (cfgname, ng), ["run-cases", "-cases", casefile]))
+    decide(ctx, b, "TraceSched", ["Inv_NoPanic", "Inv_C17_SchedComplete", "Inv_C17_SchedAnswer"], sched_traces, extras=["Inv_X_SchedConform"])
 
 
 def finish(ctx, plan):
